@@ -345,11 +345,13 @@ class SGen:
                     sels.append(["t", kk])
                 else:
                     # a group key that is not selected; sometimes it carries an alias nobody selected (must be ignored)
-                    gitems.append(["t", self._unselected_alias(k, outcols) if self.r.random() < 0.4 else k])
+                    gitems.append(["t", k, "unselected"] if self.r.random() < 0.4 else ["t", k])
             for _ in range(self.r.choice([1, 1, 2])):
                 a = self.agg(srcs, ub)
                 typ = "str" if (a[1] in ("MIN", "MAX") and a[2][0][0] == "field" and a[2][0][1] == "s") else "int"
                 sels.append(["t", name_item(a, typ, named)])
+            # (the alias nobody selected is chosen now that every output name of the statement is known)
+            gitems = [["t", self._unselected_alias(g[1], set(outcols))] if len(g) == 3 else g for g in gitems]
             q["groupby"] = gitems
             if self.r.random() < 0.5:
                 a = self.agg(srcs, ub)
